@@ -236,3 +236,58 @@ def check_disjoint_pairs(ctx, rule, mod, fn):
     ctx.ob(rule, 'disjoint-pairs:' + fn.name, ok,
            'the disjoint routine passes the full cartesian product of its two lists, '
            'once, unconditionally, to the pair routine', mod, fn)
+
+
+# ---------------------------------------------------------------- inert fields
+TEXT_ONLY_FUNCS = {
+    ('atom', 'Atom.make_copy'): 'copies the field to the twin atom',
+    ('atom', 'Atom.make_conect_line'): 'formats a CONECT record',
+    ('atom', 'Atom.make_pdb_line'): 'formats a PDB record',
+    ('atom', 'Atom.make_mol2_line'): 'formats a MOL2 record',
+    ('atom', 'Atom.__str__'): 'debug/log text',
+    ('output', 'write_mol2_for_atoms'): 'writes a MOL2 file',
+}
+
+
+def check_inert_fields(ctx, rule, prog, fields):
+    """Fields filled from unused PDB columns are read only by copy/format
+    functions (the calculation never sees them)."""
+    fields = set(fields)
+    readers = {}
+    for mod, qual, fn in prog.all_funcs():
+        for node in walk_no_nested(fn):
+            if isinstance(node, ast.Attribute) and node.attr in fields \
+                    and isinstance(node.ctx, ast.Load):
+                readers.setdefault((mod.name, qual), []).append((mod, node))
+            if isinstance(node, ast.Call) and call_name(node) in ('getattr', 'hasattr') \
+                    and len(node.args) >= 2 and isinstance(node.args[1], ast.Constant) \
+                    and node.args[1].value in fields:
+                readers.setdefault((mod.name, qual), []).append((mod, node))
+    # format constants mentioning the fields -> their users
+    from sa.astutil import format_fields, concat_str
+    for mod in prog.modules.values():
+        for name, val in mod.module_assigns().items():
+            text = concat_str(val)
+            if not isinstance(text, str) or '{' not in text:
+                continue
+            try:
+                ffields = format_fields(text)
+            except ValueError:
+                continue
+            hit = [f for f, _s, _c in ffields if f.split('.')[-1] in fields and '.' in f]
+            if not hit:
+                continue
+            for m2, q2, f2 in prog.all_funcs():
+                for node in walk_no_nested(f2):
+                    if isinstance(node, ast.Name) and node.id == name and m2 is mod:
+                        readers.setdefault((m2.name, q2), []).append((m2, node))
+    for (mname, qual), sites in sorted(readers.items()):
+        ok = (mname, qual) in TEXT_ONLY_FUNCS
+        ctx.ob(rule, 'inert-field-reader:%s.%s' % (mname, qual), ok,
+               'fields %s (serial / occupancy / B-factor columns) are read only by '
+               'copy/format functions%s' % (
+                   sorted(fields), ' (%s)' % TEXT_ONLY_FUNCS[(mname, qual)] if ok else
+                   ' - this function is not one of them'),
+               sites[0][0], sites[0][1])
+    ctx.note('inert_field_readers', sorted('%s.%s' % k for k in readers))
+    return readers
